@@ -55,6 +55,7 @@ def build(workdir):
         orig, copy = line.split("\t")
         replace[orig] = copy
     nsites = sum(1 for l in r.stderr.splitlines() if "maporder: site" in l)
+    r0_stderr = r.stderr
     for f in sorted(glob.glob(os.path.join(VERIF, "sim", "*.go"))):
         base = os.path.basename(f)
         if base.endswith("_test.go"):
@@ -77,7 +78,8 @@ def build(workdir):
     r = subprocess.run(cmd, cwd=REPO, env=ENV, capture_output=True, text=True)
     if r.returncode != 0 or not os.path.exists(binp):
         trouble("simulator build failed (cmd: %s):\n%s\n%s" % (" ".join(cmd), r.stdout, r.stderr))
-    log("build ok in %.1fs (%d map-range sites rewritten)" % (time.time() - t0, nsites))
+    nlock = sum(1 for l in r0_stderr.splitlines() if "maporder: lock site" in l)
+    log("build ok in %.1fs (%d map-range sites rewritten, %d lock sites given a scheduling point)" % (time.time() - t0, nsites, nlock))
     return binp
 
 
